@@ -189,7 +189,13 @@ def families(tier):
     for name, topo, uq, ut, kw in runs:
         u = uq if q else ut
         if u:
-            fams.append(sched.run_family("C13", name, topo, u, **kw))
+            # C13's scheduling half ("the shifted time is what the driver assumes when scheduling"): the driver
+            # oracles of C01/C02 (no update before the shifted input is available, none that is not needed)
+            fams.append(sched.run_family("C13", name, topo, u, props=["C13", "C02", "C01"], **kw))
+    for name, topo, kw in [("a_p_dfix_b", D["a_p_dfix_b"], {}), ("ab_dfix", D["ab_dfix"], {}),
+                           ("ab_dpull", D["ab_dpull"], {}),
+                           ("ring2_pull_delay_after", R["ring2_pull_delay_after"], {"delay_sum_ge_steps": True})]:
+        fams.append(sched.step_family("C13", name, topo, props=["C13", "C02", "C01", "C04"], **kw))
     if not q:
         from .. import chsrc
         fams.append(dict(name="crosshair:with_delay", kind="crosshair", ref="vf.chrun:replay", src=chsrc.DELAYS, params={},
